@@ -264,6 +264,9 @@ func (s *Solver) emitOne(x *Term, w *strings.Builder) {
 		body = fmt.Sprintf("(not %s)", a)
 	case OInSet:
 		body = setExpr(a, x.set)
+	case OBitAnd, OBitOr, OBitXor:
+		f := map[Op]string{OBitAnd: "bvand", OBitOr: "bvor", OBitXor: "bvxor"}[x.op]
+		body = fmt.Sprintf("(bv2nat (%s ((_ int2bv %d) %s) ((_ int2bv %d) %s)))", f, x.bits, a, x.bits, b)
 	case OWrap:
 		lo, _ := cachedTypeRange(x.bits, x.signed)
 		m := new(big.Int).Lsh(big.NewInt(1), uint(x.bits))
